@@ -67,6 +67,14 @@ def openHealthOK (s : State) (a : Addr) (id : Nat) : Bool :=
     (the implementation's own value) was at or below the safety factor -/
 def forcedOK (health safety : Dec) : Bool := decide (health ≤ safety)
 
+/-- judge for a liquidation in the BeginBlocker, on the state the hook had when the position's turn came
+    (the position as stored, the pool record as it stood then): valued by the model's `UpdateMTPHealth`,
+    the position was not above the safety factor — the conclusion of `forced_only_unhealthy` -/
+def forcedStateOK (s : State) (m : Mtp) : Bool :=
+  match getPoolL s.pools m.poolSym with
+  | some p => !healthAbove s m p
+  | none => false
+
 /-- judge for a close by message: the closer is the owner or holds the margin administrator role -/
 def closerOK (signer owner : Addr) (isAdmin : Bool) : Bool := signer == owner || isAdmin
 
